@@ -9,7 +9,7 @@ from vk import core, split
 META = {
     "stubs": ["recursion of aln_continue -> worklist (goto-instrument --replace-calls aln_runner_serial:vstub_push on the compiled aln_controller.c); each step is the REAL aln_runner_serial on a concrete rectangle",
               "substitution matrix copied into one flat object with 23 row pointers (same values)", "error/warning: empty bodies"],
-    "outside": ["sequence lengths above the listed size tuples", "seq-profile and profile-profile kernels (only their control skeleton is covered by C02; values not decided here)",
+    "outside": ["sequence lengths above the listed size tuples", "seq-profile kernel beyond 2x3 with groups of 2-3 identical copies; profile-profile kernel (attempted at 1x2 / 2x2 in the thorough tier only); groups of NON-identical sequences",
                 "the >= 500-column parallel branch of aln_runner with symbolic data (orchestration: C02)",
                 "errors confined to extending a gap of length >= 2 inside the shorter sequence do not change any optimum at these sizes (known blind spot of the bracket oracle)"],
     "assumptions": ["len_a <= len_b (do_align passes the shorter sequence first)", "residues drawn from 4 letters of the alphabet (matrix read through a symbolic index)",
@@ -29,6 +29,18 @@ def configs(tier, prop="C07", equal=False):
             tup = [(t, n, n) for t in split.TYPES for n in (1, 2, 3, 4)]
     for t, la, lb in tup:
         out.append(split.Config(prop, t, la, lb, equal=equal, timeout=900 if tier == "quick" else 3600, mem_gb=8))
+    # groups of identical copies: sequence-profile (kernel 2) and profile-profile (kernel 3) with profiles built by the real code
+    if tier == "quick":
+        out.append(split.Config(prop, "dna", 1, 2, equal=False, kernel=2, ka=2, timeout=900, mem_gb=8) if not equal else split.Config(prop, "dna", 2, 2, equal=True, kernel=2, ka=2, timeout=900, mem_gb=8))
+    else:
+        for t in split.TYPES:
+            for la, lb in ((1, 2), (2, 2), (2, 3)) if not equal else ((2, 2), (3, 3)):
+                out.append(split.Config(prop, t, la, lb, equal=equal, kernel=2, ka=2, timeout=3600, mem_gb=10))
+        out.append(split.Config(prop, "dna", 2, 2, equal=equal, kernel=2, ka=3, timeout=3600, mem_gb=10))
+        out.append(split.Config(prop, "protein", 2, 1, equal=False, kernel=2, ka=2, timeout=3600, mem_gb=10)) if not equal else None
+        # profile-profile: 2x2 ran out of 6 GB in the probe; attempted with 20 GB (may stay undecided)
+        out.append(split.Config(prop, "dna", 1, 2 if not equal else 1, equal=equal, kernel=3, ka=2, kb=2, timeout=3600, mem_gb=20))
+        out.append(split.Config(prop, "dna", 2, 2, equal=equal, kernel=3, ka=2, kb=2, timeout=5400, mem_gb=20))
     if tier != "quick" and not equal:
         # user penalties: only settings for which the oracle (with the property's 2*gpo margin) raises no alarm on the
         # unchanged tree in the native validation (tools/c07_native.c 5 4 <gpo> <gpe> <tgpe>); see DESIGN.md C07
@@ -85,7 +97,7 @@ def run_split(prop, tier, seed, only, cfgs, meta, what):
                        "obligations": len(cfgs), "discharged": sum(1 for c in cfgs if not c.violations and not c.undecided),
                        "configs": [{"config": c.name, **c.stats, "violations": len(c.violations), "undecided": c.undecided[:5]} for c in cfgs],
                        "functions_encoded": split.FUNCS, "stubs": meta["stubs"], "outside": meta["outside"],
-                       "bounds": ["%s: len_a=%d len_b=%d, 4 letters, all residues symbolic, floats bit-precise" % (c.tname, c.la, c.lb) for c in cfgs],
+                       "bounds": ["%s (%s): len_a=%d len_b=%d, 4 letters, all residues symbolic, floats bit-precise" % (c.tname, {1: "sequence-sequence", 2: "profile of %d identical copies vs sequence" % c.ka, 3: "profiles of %d and %d identical copies" % (c.ka, c.kb)}[c.kernel], c.la, c.lb) for c in cfgs],
                        "solver_time_s": round(sum(c.stats["solver_s"] for c in cfgs), 1), "peak_rss_mb": max([c.stats["max_rss_mb"] for c in cfgs] + [0]),
                        "sat_variables_total": sum(c.stats["vars"] for c in cfgs), "program_steps_total": sum(c.stats["steps"] for c in cfgs),
                        "undecided": ["%s: %s" % x for x in und[:20]], "tree_hash": core.tree_hash(), "exhaustive": False,
